@@ -597,6 +597,10 @@ func runC01(cases string, res *Result) {
 		c01PristineMain(cases)
 		return
 	}
+	if len(os.Args) > 4 && os.Args[4] == "--probe" {
+		c01ProbeMain(cases)
+		return
+	}
 	// one P: a drain then sees every pooled object (see the hook file)
 	runtime.GOMAXPROCS(1)
 	dir := "."
@@ -607,6 +611,10 @@ func runC01(cases string, res *Result) {
 	idx := 0
 	strictDiffs, strictRuns, fresh := 0, 0, 0
 	readCases(cases, func(c Case) {
+		if c.str("k") == "probes" {
+			runC01Probes(c, res, dir)
+			return
+		}
 		idx++
 		h := c01Decode(c)
 		key, _ := json.Marshal([]interface{}{c["store"], c["ops"], c["engines"]})
